@@ -397,5 +397,12 @@ def run(prog, rep):
     for u in [u for u in cd.units.values() if u.name in holders]:
         rep.attempt(attr_linkage, rep, cd, u, rule="gap-record-symmetry")
     rep.attempt(gap_reader_accepts, prog, cd, rep, gap_units)
+    # 'identically on every decode of the same bytes' - also through the container: every get_block decodes from the handle, at the
+    # entry's offset, into a fresh object (a block remembered on the Tdf object hands a caller's in-memory gap edits, or the decode
+    # of bytes another handle has since replaced, out as the decode of the file)
+    from .. import mutrules as _MR
+    from ..container import Container as _Ct
+    _ct = _Ct(prog)
+    rep.attempt(_MR.get_block_reads_disk, _ct, rep, "decode-reads-the-bytes")
     rep.trusted += ["numpy contract: masked_invalid + clump_unmasked return the maximal runs of non-NaN entries as increasing, disjoint, non-adjacent slices"]
     rep.not_decided += ["the numpy contract itself over all 2^n masks", "tracks whose components disagree on where the NaNs are"]
